@@ -12,7 +12,9 @@ import (
 	"sync/atomic"
 	"time"
 
+	"mosn.io/mosn/pkg/protocol"
 	sh2 "mosn.io/mosn/pkg/stream/http2"
+	"mosn.io/mosn/pkg/types"
 	"mosn.io/pkg/buffer"
 	"mosn.io/pkg/variable"
 
@@ -26,6 +28,10 @@ type h2obsT struct {
 	Cur     int    `json:"pool_client"` // connection number of p.activeClient, -1 none
 	CurGA   bool   `json:"pool_client_goaway"`
 	Closed  []bool `json:"closed"`
+	ReqHost int64  `json:"request_active_host"`
+	ReqClus int64  `json:"request_active_cluster"`
+	ReqRes  int64  `json:"requests_resource"`
+	Live    int    `json:"live_streams"` // truth: streams handed out and not destroyed
 }
 
 func (w *world) h2observe() h2obsT {
@@ -41,10 +47,17 @@ func (w *world) h2observe() h2obsT {
 	for _, c := range w.clients {
 		o.Closed = append(o.Closed, c.closedMosnSide())
 	}
+	o.ReqHost, o.ReqClus = w.host.HostStats().UpstreamRequestActive.Count(), w.host.ClusterInfo().Stats().UpstreamRequestActive.Count()
+	o.ReqRes = w.rm.Requests().Cur()
+	for _, l := range w.leases {
+		if l.live() {
+			o.Live++
+		}
+	}
 	return o
 }
 
-func (w *world) h2new() bool {
+func (w *world) h2new(send bool) bool {
 	ctx := buffer.NewBufferPoolContext(variable.NewVariableContext(context.Background()))
 	l := &lease{tok: 1, ctx: ctx, cli: -1, recvWanted: true}
 	_, sender, reason := w.pool.NewStream(ctx, l)
@@ -52,24 +65,57 @@ func (w *world) h2new() bool {
 		return false
 	}
 	sender.GetStream().AddEventListener(l)
+	if v, err := variable.Get(ctx, types.VariableUpstreamConnectionID); err == nil {
+		l.connID, _ = v.(uint64)
+	}
 	w.mu2.Lock()
 	l.idx = len(w.leases)
 	l.sender = sender
 	w.leases = append(w.leases, l)
 	w.mu2.Unlock()
+	if send {
+		w.h2send(l)
+	}
 	return true
+}
+
+// the request headers go out (end of stream): from here on the stream is in the connection's stream table
+func (w *world) h2send(l *lease) {
+	l.sent = true
+	l.sender.AppendHeaders(l.ctx, protocol.CommonHeader{"x-tok": "1"}, true)
+}
+
+// the streams of a closed connection end (reset by the stream layer): wait for it, a stream that stays alive is a finding
+func (w *world) h2settleStreams(c int) {
+	w.wait("h2-streams-of-closed-connection", 300*time.Millisecond, func() bool {
+		for _, l := range w.leases {
+			if cr := w.byConnID[l.connID]; cr != nil && cr.idx == c && l.live() && l.sent {
+				return false
+			}
+		}
+		return true
+	})
 }
 
 func (w *world) h2apply(o op) []string {
 	switch o.K {
-	case "new", "newfail":
+	case "send":
+		if l := w.leases[o.A]; l.live() && !l.sent {
+			w.h2send(l)
+			if cr := w.byConnID[l.connID]; cr != nil && cr.closedMosnSide() {
+				// the connection closed between lease and send: the send fails and the stream ends
+				w.wait("h2-send-on-closed-connection", 300*time.Millisecond, func() bool { return !l.live() })
+			}
+		}
+		return nil
+	case "new", "newfail", "newnosend":
 		w.host.mu.Lock()
 		w.host.fail = dialOK
 		if o.K == "newfail" {
 			w.host.fail = dialRefused
 		}
 		w.host.mu.Unlock()
-		w.h2new()
+		w.h2new(o.K != "newnosend")
 		w.host.mu.Lock()
 		w.host.fail = dialOK
 		w.host.mu.Unlock()
@@ -89,7 +135,7 @@ func (w *world) h2apply(o op) []string {
 				atomic.AddInt32(&ready, 1)
 				for atomic.LoadInt32(&goFlag) == 0 {
 				}
-				w.h2new()
+				w.h2new(true)
 			}()
 		}
 		for atomic.LoadInt32(&ready) < 2 {
@@ -125,9 +171,15 @@ func (w *world) h2apply(o op) []string {
 		return []string{fmt.Sprintf("HGoAway %d", o.A)}
 	case "closer", "closel", "closerst":
 		w.connClose(w.clients[o.A], map[string]string{"closer": "fin", "closel": "local", "closerst": "rst"}[o.K])
+		w.h2settleStreams(o.A)
 		return []string{fmt.Sprintf("HClose %d", o.A)}
 	case "poolclose":
 		w.pool.Close()
+		for _, c := range w.clients {
+			if c.closedMosnSide() {
+				w.h2settleStreams(c.idx)
+			}
+		}
 		return []string{"HPoolClose"}
 	case "reset":
 		w.localReset(w.leases[o.A])
@@ -139,10 +191,13 @@ func (w *world) h2apply(o op) []string {
 func (w *world) h2enabled(full bool) []op {
 	ops := []op{{K: "new"}, {K: "new2"}}
 	if full {
-		ops = append(ops, op{K: "newfail"}, op{K: "poolclose"})
+		ops = append(ops, op{K: "newfail"}, op{K: "poolclose"}, op{K: "newnosend"})
 		for i, l := range w.leases {
 			if l.live() && i >= len(w.leases)-2 {
 				ops = append(ops, op{"reset", l.idx})
+				if !l.sent {
+					ops = append(ops, op{"send", l.idx})
+				}
 			}
 		}
 	}
@@ -159,16 +214,18 @@ func (w *world) h2enabled(full bool) []op {
 }
 
 type h2hist struct {
-	ops  []op
-	coq  [][]string
-	obs  []h2obsT
-	fnd  []finding
-	tout []string
+	maxReq uint64
+	sops   []string // stream-level ops (send, reset) and where they happened
+	ops    []op
+	coq    [][]string
+	obs    []h2obsT
+	fnd    []finding
+	tout   []string
 }
 
 func (h *h2hist) key() string {
 	var b strings.Builder
-	b.WriteString("h2")
+	fmt.Fprintf(&b, "h2/%d", h.maxReq)
 	for _, o := range h.ops {
 		b.WriteString("|" + o.String())
 	}
@@ -179,7 +236,7 @@ func (h *h2hist) descr() map[string]interface{} {
 	for _, o := range h.ops {
 		ops = append(ops, o.String())
 	}
-	return map[string]interface{}{"pool": "http2", "ops": ops, "obs": h.obs, "timeouts": h.tout}
+	return map[string]interface{}{"pool": "http2", "max_requests": h.maxReq, "ops": ops, "stream_ops": h.sops, "obs": h.obs, "timeouts": h.tout}
 }
 func (h *h2hist) coqCase() string {
 	var steps []string
@@ -226,6 +283,17 @@ func (w *world) h2check(o op, ob h2obsT, goaway map[int]bool, seen map[string]bo
 	if ob.Active != ob.Cluster {
 		add("host-cluster-gauge-differ", fmt.Sprintf("after %s: host %d cluster %d", o, ob.Active, ob.Cluster))
 	}
+	// request accounting of the same pool: gauge and Requests resource against the streams really alive
+	wantRes := int64(ob.Live) // the resource counts for every max_requests, 0 (unlimited) included
+	if ob.ReqHost < 0 || ob.ReqClus < 0 || ob.ReqRes < 0 {
+		add("request-active-negative", fmt.Sprintf("after %s: upstream_request_active host=%d cluster=%d Requests().Cur()=%d", o, ob.ReqHost, ob.ReqClus, ob.ReqRes))
+	} else if ob.ReqHost != int64(ob.Live) || ob.ReqClus != int64(ob.Live) || ob.ReqRes != wantRes {
+		sig := "request-active-differs-from-live-streams"
+		if ob.Live == 0 {
+			sig = "request-active-leaked"
+		}
+		add(sig, fmt.Sprintf("after %s: upstream_request_active host=%d cluster=%d Requests().Cur()=%d with %d live streams (max_requests %d)", o, ob.ReqHost, ob.ReqClus, ob.ReqRes, ob.Live, w.maxReq))
+	}
 	if ob.Active >= 0 && ob.Active != int64(open) {
 		sig := "connection-active-differs-from-open-connections"
 		if open == 0 {
@@ -236,14 +304,14 @@ func (w *world) h2check(o op, ob h2obsT, goaway map[int]bool, seen map[string]bo
 	return out
 }
 
-func runH2(depth int, full bool, pick func(step int, en []op) *op) *h2hist {
-	w, err := newWorld(kH2, 0, 0)
+func runH2(maxReq uint64, depth int, full bool, pick func(step int, en []op) *op) *h2hist {
+	w, err := newWorld(kH2, 0, maxReq)
 	if err != nil {
 		panic(err)
 	}
 	defer w.close()
 	w.noHeldWait = true
-	h := &h2hist{}
+	h := &h2hist{maxReq: maxReq}
 	goaway := map[int]bool{}
 	seen := map[string]bool{}
 	step := func(o op) {
@@ -252,7 +320,10 @@ func runH2(depth int, full bool, pick func(step int, en []op) *op) *h2hist {
 			goaway[o.A] = true
 		}
 		if c == nil {
-			return // stream-level op: no effect on the connection accounting, not a model step
+			// stream-level op: no effect on the connection accounting, not a model step; the finder still looks
+			h.fnd = append(h.fnd, w.h2check(o, w.h2observe(), goaway, seen)...)
+			h.sops = append(h.sops, fmt.Sprintf("%s after step %d", o, len(h.ops)))
+			return
 		}
 		ob := w.h2observe()
 		h.ops = append(h.ops, o)
@@ -274,6 +345,21 @@ func runH2(depth int, full bool, pick func(step int, en []op) *op) *h2hist {
 			step(op{"closer", c.idx})
 		}
 	}
+	// every connection is closed: a stream leased and never sent is sent now (the send fails), then no stream may be alive
+	for _, l := range w.leases {
+		if l.live() && !l.sent {
+			step(op{"send", l.idx})
+		}
+	}
+	for _, l := range w.leases {
+		if l.live() && !seen["alive"] {
+			seen["alive"] = true
+			h.fnd = append(h.fnd, finding{"h2pool:stream-alive-after-all-connections-closed", fmt.Sprintf("stream %d (sent: %v) was neither reset nor destroyed although every connection of the pool is closed", l.idx, l.sent)})
+		}
+	}
+	if ob := w.h2observe(); len(h.obs) > 0 {
+		h.fnd = append(h.fnd, w.h2check(op{K: "end"}, ob, goaway, seen)...)
+	}
 	h.tout = w.timeouts
 	return h
 }
@@ -286,7 +372,7 @@ func c10h2(run *Run) {
 	jobs = append(jobs, func() {
 		ch := &chooser{}
 		for {
-			collect(runH2(run.N(4, 5), false, func(step int, en []op) *op { return &en[ch.choose(len(en))] }))
+			collect(runH2(0, run.N(4, 5), false, func(step int, en []op) *op { return &en[ch.choose(len(en))] }))
 			if !ch.next() {
 				break
 			}
@@ -296,7 +382,7 @@ func c10h2(run *Run) {
 	for i := 0; i < run.N(300, 3000); i++ {
 		jobs = append(jobs, func() {
 			script := []op{{K: "new2"}, {K: "goaway", A: 0}, {K: "closer", A: 0}, {K: "new"}}
-			collect(runH2(len(script), true, func(step int, en []op) *op {
+			collect(runH2(0, len(script), true, func(step int, en []op) *op {
 				o := script[step]
 				for _, e := range en {
 					if e == o {
@@ -316,7 +402,7 @@ func c10h2(run *Run) {
 		i := i
 		jobs = append(jobs, func() {
 			r := NewRng(seeds[i])
-			collect(runH2(6+r.Intn(15), true, func(step int, en []op) *op { return &en[r.Intn(len(en))] }))
+			collect(runH2(uint64(3*(i%2)), 6+r.Intn(15), true, func(step int, en []op) *op { return &en[r.Intn(len(en))] }))
 		})
 	}
 	var wg sync.WaitGroup
